@@ -336,6 +336,15 @@ def run(prop: str, tier: str, seed: int) -> int:
             cases.append(h0.run(f"nosupport-{variant}-{k}", hist))
         rep.family(f"histories-without-model-support-{variant}", len(hs0), len(hs0))
         rep.nontrivial += len(hs0)
+        # ... and with the "perfect model": the model handed to set_model is the real system's own equations
+        hp = Harness(inst, variant, {"m1": inst.system.equations}, xs)
+        hsp = [q for q in hs if any(a[0] == "model" for a in q) and any(a[0] == "eval" for a in q)]
+        hsp = hsp if len(hsp) <= 30 else rng.sample(hsp, 30)
+        for k, hist in enumerate(hsp):
+            hp.obj = hp.cls(inst, True)
+            cases.append(hp.run(f"perfect-model-{variant}-{k}", list(hist) + [("raw",), ("eval", "a"), ("diff",)]))
+        rep.family(f"histories-with-the-real-equations-as-model-{variant}", len(hsp), len(hsp))
+        rep.nontrivial += len(hsp)
         # long random histories on one object
         for k in range({"quick": 25, "thorough": 250}[tier]):
             hist = []
